@@ -13,7 +13,7 @@ notes = {
  "C05": "Constants of the bounds are asserted from loop shape (tree-path loops, Floyd construction), not derived; hashing cost is not considered; only priority comparisons (Ord/PartialOrd on P) are counted.",
  "C06": "Monotonicity of the yielded priorities is C01/C02's undecided core; decides which end is consumed, by which primitive, the reported length, and (as necessary conditions) the heap-order rules of C01/C02.",
  "C07": "NOT decided: that the resulting contents equal the specification for every input sequence; decides hint-independence (taint), the first/last/receiver-wins table, rebuild after every bulk path, table growth.",
- "C08": "NOT decided: value-level outcomes; indexmap's retain2 visiting each element exactly once is trusted.",
+ "C08": "NOT decided: value-level outcomes; indexmap's retain2 visiting each element exactly once is trusted. KNOWN FINDING D9 (genuine, not repaired, listed in known_findings.json): the &mut items of iter_mut() outlive the iterator whose destructor rebuilds the heap - writes through collected references happen after the rebuild (R-LENDING); the check prints KNOWN-FINDING and exits 0.",
  "C09": "The cursor discipline is sufficient for uniqueness given get_index_mut2's contract, so the aliasing clause itself is decided for all call sequences.",
  "C10": "Trusted: indexmap/std stay memory safe when a user callback unwinds. Panics in user Drop impls are outside the property's list of user code. A stale map after a panicking retain2 leads to safe panics only (bounds-checked map accesses).",
  "C11": "Relies on the C01/C02/C03 rules for push itself.",
@@ -56,7 +56,7 @@ m = {
  "engines": [{"name": "pqfacts+pqa", "path": "/verif/pqfacts, /verif/pqa, /verif/check", "serves_properties": sorted(props.PROPS),
               "kind_free_text": "custom rustc_private driver serialising the type-checked crate (MIR, resolved callees, instantiated predicates) + Python rule engine (CFG, value provenance, effect inference, typestate exploration)"}],
  "checks": checks,
- "notes": "source_commits are unguarded `fix:` commits repairing genuine defects (see known_findings.json, DESIGN.md 5); there are no hook commits. quick = std + serde + no_std configurations (C15: serde only; the property's anchors exist only there); thorough = the same three configurations plus compile-fail witnesses and checker self-test (seeded changes and benign patches applied to scratch copies, evidence only). Exit 2 + CHECK-ERROR = no verdict (tree does not build / anchor lost).",
+ "notes": "source_commits are unguarded `fix:` commits repairing genuine defects D1-D8 (see known_findings.json, DESIGN.md 5); one genuine defect (D9, iter_mut items outlive the iterator) is recorded as a known finding under C01, C02, C04, C08 and not repaired; there are no hook commits. quick = std + serde + no_std configurations (C15: serde only; the property's anchors exist only there); thorough = the same three configurations plus compile-fail witnesses and checker self-test (seeded changes and benign patches applied to scratch copies, evidence only). Exit 2 + CHECK-ERROR = no verdict (tree does not build / anchor lost).",
  "not_applicable": [],
 }
 json.dump(m, open(os.path.join(HERE, "MANIFEST.json"), "w"), indent=1)
